@@ -1111,4 +1111,5 @@ func run(c *vm.Ctx) {
 			checkNestedRender(c, pr, true)
 		}
 	}
+	runMore(c)
 }
